@@ -95,6 +95,15 @@ class Interp:
                     v = v[1][e["f"]] if e["f"] < len(v[1]) else UNKNOWN
                 else:
                     return UNKNOWN
+            elif isinstance(e, dict) and ("si" in e or ("i" in e and isinstance(v, tuple) and v[0] == "symvec")):
+                idx = e["si"] if "si" in e else fr.locals.get(e["i"], UNKNOWN)
+                if isinstance(v, tuple) and v[0] == "symvec":
+                    hook = getattr(self, "index_hook", None)
+                    if hook is not None:
+                        hook(v, idx)
+                    v = ("symop", "elem", ("sym", v[1]), idx)
+                else:
+                    return UNKNOWN
             elif isinstance(e, dict) and "i" in e:
                 idx = fr.locals.get(e["i"], UNKNOWN)
                 if isinstance(v, tuple) and v[0] == "array" and isinstance(idx, int) and idx < len(v[1]):
@@ -414,6 +423,8 @@ class Interp:
                     t = self.load_ref(t)
                 if isinstance(t, tuple) and t[0] == "array":
                     return len(t[1])
+                if isinstance(t, tuple) and t[0] == "symvec":
+                    return ("sym", t[1])
                 return UNKNOWN
             if rv["op"] == "Neg" and isinstance(v, tuple) and v[0] == "f":
                 return ("f", -v[1])
@@ -454,6 +465,8 @@ class Interp:
                 idx = fr.locals.get(e["i"], UNKNOWN)
                 if isinstance(idx, int):
                     out.append({"ci": idx, "ml": 0, "fe": False})
+                elif isinstance(idx, tuple) and idx[0] in ("sym", "symop"):
+                    out.append({"si": idx})          # a symbolic position in a slice of symbolic length
                 else:
                     out.append({"unknown": 1})
             else:
@@ -1121,9 +1134,16 @@ def m_checked(op):
     def f(it, args, callee, depth):
         p = (callee or {}).get("path", "")
         a, b = deref_all(it, args[0]), deref_all(it, args[1])
+        ty = p.split("<impl ")[-1].split(">")[0] if "<impl " in p else "usize"
+        symb = lambda x: isinstance(x, tuple) and x[0] in ("sym", "symop")       # noqa: E731
+        if op == "sub" and not ty.startswith("i") and (symb(a) or symb(b)) and (symb(a) or isinstance(a, int)) and (symb(b) or isinstance(b, int)):
+            # unsigned checked_sub on symbolic operands: Some(a - b) exactly when a >= b (the oracle / a fork decides)
+            r_ = it.oracle("Ge", a, b)
+            if r_ is None:
+                raise Undecided("comparison Ge(%r, %r) not decided by the abstract domain" % (a, b))
+            return some(("symop", "Sub", a, b)) if r_ else NONE
         if not (isinstance(a, int) and isinstance(b, int)):
             return NotImplemented
-        ty = p.split("<impl ")[-1].split(">")[0] if "<impl " in p else "usize"
         bits = INT_BITS.get(ty, 64)
         signed = ty.startswith("i")
 
